@@ -120,7 +120,7 @@ void harness (void)
   vf_msg_symbolic (&msg, ms);
   if (vf_bool ()) msg.dest = DRIVER;                         /* also: addressed to the bus driver */
   if (vf_bool ()) { msg.type = DBUS_MESSAGE_TYPE_SIGNAL; msg.iface = DBUS_INTERFACE_LOCAL; msg.member = "Disconnected"; }
-  sender_c.id = 0; sender_c.active = was_active = vf_bool (); sender_c.monitor = vf_bool (); sender_c.name = sender_c.active ? ":1.7" : 0; sender_c.refs = 1;
+  sender_c.id = 0; sender_c.active = was_active = vf_bool (); sender_c.monitor = vf_bool (); sender_c.name = sender_c.active ? ":7" : 0;   /* shorter than the longest client-supplied SENDER (VF_STRMAX): forged senders that extend the true name are in range */ sender_c.refs = 1;
   owner_c.id = 1; owner_c.active = 1; owner_c.name = ":1.1"; owner_c.can_fd = vf_bool (); owner_c.policy_allows = vf_bool (); owner_c.policy_oom = vf_bool ();
   for (i = 0; i < 2; i++) { rcp[i]->id = 2 + i; rcp[i]->active = 1; rcp[i]->name = ":1.9"; rcp[i]->can_fd = vf_bool (); rcp[i]->policy_allows = vf_bool (); rcp[i]->policy_oom = vf_bool (); }
   svc_exists = vf_bool (); driver_ok = vf_bool (); driver_err_oom = vf_bool (); activate_ok = vf_bool (); activate_err_oom = vf_bool ();
